@@ -120,7 +120,8 @@ case(
 
 # ---- allocation / freshness, constructors by contract ------------------------------------------------------------------
 case(
-    B + "STNode.__init__", params={"self": Ref("STNode"), "value": INT}, modifies=["STNode.value", "STNode.tag"],
+    # "<param>.field" in modifies: only that object's field changes (callers keep everything else)
+    B + "STNode.__init__", params={"self": Ref("STNode"), "value": INT}, modifies=["self.value", "self.tag"],
     ensures={"v": "self.value == value", "t": "self.tag == ''"},
     canaries={"v0": "self.value == 0"},
     gen=lambda rng: {"value": rng.randint(1, 5)},
@@ -135,7 +136,7 @@ case(
 case(
     B + "make_two", params={"v": INT}, returns=List(Ref("STNode")),
     ensures={"two": "len(result) == 2", "distinct": "result[0] is not result[1]", "fresh": "fresh(result[0]) and fresh(result[1])",
-             "vals": "result[1].value == v + 1", "tag": "result[0].tag == 'a' and result[1].tag == ''"},
+             "vals": "result[0].value == v and result[1].value == v + 1", "tag": "result[0].tag == 'a' and result[1].tag == ''"},
     canaries={"same": "result[0] is result[1]", "tagb": "result[1].tag == 'a'"},
     gen=lambda rng: {"v": rng.randint(0, 5)},
 )
@@ -210,4 +211,44 @@ case(
     ensures={"max": "result >= x and result >= y and (result == x or result == y)"},
     canaries={"x": "result == x", "gt": "result > y"},
     gen=lambda rng: {"x": rng.randint(-2, 2), "y": rng.randint(-2, 2)},
+)
+
+# ---- `modifies` is checked: what a body changes without declaring it must be provably unchanged ---------------------------------
+case(
+    B + "sneaky_field", params={"c": Ref("STCounter")}, returns=INT, must_fail=["modifies.STCounter.count-unchanged"],
+    ensures={"z": "result == 0"}, gen=lambda rng: {"c": 1}, build=lambda d: {"c": M.STCounter(d["c"])}, n=2,
+)
+case(
+    B + "sneaky_param", params={"xs": List(INT)}, returns=INT, must_fail=["modifies.xs-unchanged"],
+    ensures={"z": "result == 0"}, gen=lambda rng: {"xs": [1]}, n=2,
+)
+case(
+    B + "sneaky_loop", params={"xs": List(INT), "ys": List(INT)}, returns=INT, must_fail=["modifies.xs-unchanged"],
+    ensures={"z": "result == 0"}, gen=lambda rng: {"xs": [1], "ys": [2]}, n=2,
+)
+case(
+    # re-binding a parameter and mutating the NEW object is not visible to the caller: no modifies needed
+    B + "rebind_param", params={"xs": List(INT)}, returns=INT,
+    ensures={"n": "result == len(xs) + 2"}, canaries={"n1": "result == len(xs) + 1"},
+    gen=lambda rng: {"xs": ints(rng)},
+)
+case(
+    # stores to an object the function allocated itself need no modifies entry (the constructor's own effects do)
+    B + "own_object_store", params={"v": INT}, returns=INT,
+    ensures={"v": "result == v"}, canaries={"z": "result == 0"},
+    gen=lambda rng: {"v": rng.randint(1, 4)},
+)
+
+# ---- a call under `and` / conditional-expression guards has conditional effects ------------------------------------------------------
+case(
+    B + "guarded_push", params={"xs": List(INT), "flag": BOOL}, returns=INT, modifies=["xs"],
+    ensures={"n": "result == len(old(xs)) + ite(flag, 1, 0)", "kept": "implies(not flag, xs == old(xs))", "app": "implies(flag, xs == old(xs) + [1])"},
+    canaries={"always": "result == len(old(xs)) + 1", "never": "xs == old(xs)"},
+    gen=lambda rng: {"xs": ints(rng), "flag": rng.random() < 0.5},
+)
+case(
+    B + "guarded_bump", params={"c": Ref("STCounter"), "flag": BOOL}, returns=INT, modifies=["STCounter.count"],
+    ensures={"kept": "implies(not flag, c.count == old(c.count) and result == 0)", "bumped": "implies(flag, c.count == old(c.count) + 1 and result == c.count)"},
+    canaries={"always": "c.count == old(c.count) + 1", "never": "c.count == old(c.count)"},
+    gen=lambda rng: {"c": rng.randint(0, 3), "flag": rng.random() < 0.5}, build=lambda d: {"c": M.STCounter(d["c"]), "flag": d["flag"]},
 )
